@@ -41,6 +41,17 @@ class Ev:
             self._reach[bi] = r
         return bu in r
 
+    def _pos_dom(self, d1, d2):
+        """does program point d1=(block, idx) strictly precede d2 on every path to d2?"""
+        (b1, i1), (b2, i2) = d1, d2
+        if b1 == b2:
+            if i1 == "T":
+                return False
+            if i2 == "T":
+                return True
+            return i1 < i2
+        return self.body.dominates(b1, b2)
+
     def operand(self, op, at=None, depth=0):
         if op is None:
             return ("unknown", "none")
@@ -110,7 +121,28 @@ class Ev:
         defs = body.defs.get(local, [])
         alts = []
         want = place_key({"l": 0, "p": proj})[1:]
+        # kill analysis for whole-local definitions: D1 is dead at the use if another whole-local
+        # definition D2 with  D1 dom D2  and  D2 dom use  exists (every path D1 -> use passes D2)
+        killed = set()
+        entry_killed = False
+        if at is not None:
+            whole = [(bi, si) for (bi, si, lhs, rv) in defs if not lhs["p"]]
+            doms_use = [d for d in whole if self._pos_dom(d, at)]
+            if doms_use:
+                entry_killed = True
+                for d1 in whole:
+                    for d2 in doms_use:
+                        if d1 == d2:
+                            continue
+                        if d1[0] == d2[0]:
+                            if self._pos_dom(d1, d2):
+                                killed.add(d1)
+                        elif at[0] not in body.reach_after([d1[0]], avoid=frozenset([d2[0]])) and d1[0] != at[0]:
+                            # every path from D1 to the use passes through D2
+                            killed.add(d1)
         for (bi, si, lhs, rv) in defs:
+            if (bi, si) in killed and not lhs["p"]:
+                continue
             if at is not None and not self._reaches(bi, si, at[0], at[1]):
                 continue
             lk = place_key(lhs)[1:]
@@ -122,7 +154,7 @@ class Ev:
             elif len(lk) > len(want) and lk[:len(want)] == want:
                 # partial write into the read place: over-approximate
                 alts.append(("partial", self._rvalue(rv, (bi, si), depth + 1)))
-        if 1 <= local <= body.argc:
+        if 1 <= local <= body.argc and not entry_killed:
             alts.append(self._apply(("param", local, body.local_name(local)), proj))
         if not alts:
             return self._apply(("unknown", "undef:%s" % body.local_name(local)), proj)
